@@ -1,5 +1,7 @@
 import OV.Model.C12Autocast
 import OV.Model.C12Cache
+import OV.Model.C12Scope
+import OV.Model.C12Call
 import OV.Drivers.Loop
 /-! Line-protocol driver for C12.
 
@@ -8,6 +10,7 @@ import OV.Drivers.Loop
   `l:<scalar>,<scalar>…`; scalar `b0|b1` | `i<int>` | `f<+|-><num>/<den>`.
   Answer: `ok <out>*` with out `N` | `P:<DTYPE>` | `C:<DTYPE>:<s|l>:<sval>,…` (sval `b1`, `i5`, `f+5/2@0`, `u`),
   or `ERR:<tooMany|overflow|refused>`; `repr` answers `1`/`0` (`allRepresentable`).
+* `C12 hist <call> ;; <call> …` (call = `<formal>* | <arg>*`): calls on ONE builder (constant cache threaded).
 * `C12 cache <req>*` with req `<s:…|l:…>@<DTYPE|none>`: one answer per request, `;`-separated:
   `<name>=<DTYPE>:<sval>,…` (name `S:<scalar>:<DTYPE|none>` or `L:<n>`) or `ERR:…`; then ` #<cache size>`. -/
 namespace OV.Drivers.C12
@@ -139,10 +142,84 @@ def handleCache (rest : List String) : String :=
     ";".intercalate outs ++ s!" #{c.length}"
   | none => "bad-op"
 
+/-- Split a token list at every `;;`. -/
+def splitCalls : List String → List (List String)
+  | [] => [[]]
+  | t :: ts =>
+    match splitCalls ts with
+    | [] => [[t]]
+    | c :: cs => if t == ";;" then [] :: c :: cs else (t :: c) :: cs
+
+def showBOut (o : BOut) : String :=
+  showOut o.out ++ "@" ++ (match o.init with | some n => showName n | none => "-")
+
+def showBRes : Except Err (List BOut) → String
+  | .ok os => " ".intercalate ("ok" :: os.map showBOut)
+  | .error e => showErr e
+
+def parseCall (ts : List String) : Option (List (Formal String) × List Arg) :=
+  let (fts, ats) := splitBar ts
+  match fts.mapM parseFormal, ats.mapM parseArg with
+  | some sfs, some args => some (sfs.map SFormal.formal, args)
+  | _, _ => none
+
+/-- `hist <formals> | <args> ;; <formals> | <args> ;; …`: the calls made in this order on one fresh builder (builder
+reading of each signature); answers are `;;`-separated, operands carry `@<initializer name>`; then ` #<cache size>`. -/
+def handleHist (rest : List String) : String :=
+  match (splitCalls rest).mapM parseCall with
+  | some calls =>
+    let (rs, c) := runCalls [] calls
+    " ;; ".intercalate (rs.map showBRes) ++ s!" #{c.length}"
+  | none => "bad-op"
+
+def parseInstr (s : String) : Option OV.Scope.Instr :=
+  if s == "E" then some .enter
+  else if s.startsWith "L" then (s.drop 1).toString.toNat?.map .bindLit
+  else if s.startsWith "T" then (s.drop 1).toString.toNat?.map .bindTensor
+  else if s.startsWith "U" then (s.drop 1).toString.toNat?.map .use
+  else if s.startsWith "X:" then
+    let body := (s.drop 2).toString
+    if body == "" then some (.exit []) else ((body.splitOn ",").mapM (fun (t : String) => t.toNat?)).map .exit
+  else none
+
+/-- `scope <instr>*` with instr `L<n>` (n = literal) | `T<n>` (n = tensor expr) | `U<n>` (use n) | `E` (enter block) |
+`X:<n>,<n>…` (leave block, these names are its outputs): the answers of `Converter._is_castable` at every use,
+`1`/`0` (`u`: unbound), space separated. -/
+def handleScope (rest : List String) : String :=
+  match rest.mapM parseInstr with
+  | some prog =>
+    " ".intercalate ((OV.Scope.run prog).obs.map (fun o => match o with
+      | some true => "1" | some false => "0" | none => "u"))
+  | none => "bad-op"
+
+def parseParam (s : String) : Option OV.Call.Param :=
+  match s.toList with
+  | ['I', a, b] => some (.input (a == '1') (b == '1'))
+  | ['A', a, b] => some (.attr (a == '1') (b == '1'))
+  | _ => none
+
+/-- `sep <allowExtra 0/1> <n> <param>*` with param `I<variadic><required>` | `A<required><hasDefault>`:
+`ok in=<i>,… attr=<param>:<arg>,…` or `ERR:missing` / `ERR:tooMany`. -/
+def handleSep (rest : List String) : String :=
+  match rest with
+  | ae :: n :: ps =>
+    match parseBit ae, n.toNat?, ps.mapM parseParam with
+    | some ae, some n, some ps =>
+      match OV.Call.separate ps n ae with
+      | .ok r => "ok in=" ++ ",".intercalate (r.inputs.map toString) ++ " attr="
+          ++ ",".intercalate (r.attrs.map (fun q => s!"{q.1}:{q.2}"))
+      | .error .missing => "ERR:missing"
+      | .error .tooMany => "ERR:tooMany"
+    | _, _, _ => "bad-op"
+  | _ => "bad-op"
+
 def handle (args : List String) : String :=
   match args with
+  | "sep" :: rest => handleSep rest
+  | "scope" :: rest => handleScope rest
   | "cast" :: mode :: rest => handleCast mode rest
   | "cache" :: rest => handleCache rest
+  | "hist" :: rest => handleHist rest
   | _ => "bad-op"
 
 end OV.Drivers.C12
